@@ -200,11 +200,16 @@ class LoopMixin:
         ghost.pop("_entry")
         if st.yielded is None and spec.get("yields"):
             st.yielded = z3.Empty(SeqV)
+        for g, text in (spec.get("ghost_init") or {}).items():
+            st.env[g] = self.spec_value(text, st, None, old=entry)
         # inv-init
         for j, inv in enumerate(spec.get("invariant", [])):
             self.oblige(st, "inv-init", f"loop{ordn}#{j}", self.spec_eval(inv, st, dict(ghost, _i=vint(0)), old=entry, goal=True), s, meta={"clause": inv})
         # cut
         self.havoc_for_loop(st, s.body + [ast.Assign(targets=[s.target], value=ast.Constant(0))], spec, s)
+        for g in (spec.get("ghost_init") or {}):
+            oldv = st.env[g]
+            st.env[g] = V(oldv.k, fresh(g, oldv.t.sort()), cls=oldv.cls, elem=oldv.elem)
         i = fresh("_i")
         st.assume(z3.And(i >= 0, i <= n))
         gi = dict(ghost, _i=vint(i))
@@ -225,6 +230,8 @@ class LoopMixin:
                 for r in self.exec_block(s.body, [b2]):
                     if r.status in ("run", "cont"):
                         r.status = "run"
+                        for g, upd in (spec.get("ghost_step") or {}).items():
+                            r.env[g] = self.spec_value(upd, r, dict(ghost, _i=vint(i)), old=entry)
                         gk = dict(ghost, _i=vint(i + 1))
                         for j, inv in enumerate(spec.get("invariant", [])):
                             self.oblige(r, "inv-keep", f"loop{ordn}#{j}", self.spec_eval(inv, r, gk, old=entry, goal=True), s, meta={"clause": inv})
